@@ -146,6 +146,9 @@ func (e *Engine) buildQuery(p *OblPath, withModel bool, uses []string) string {
 	b.WriteString(body.String())
 	b.WriteString("(check-sat)\n")
 	b.WriteString(mt)
+	if e.unit != nil && e.unit.C != nil && e.unit.C.Opts["strings"] == "abstract" {
+		return abstractStrings(b.String())
+	}
 	return b.String()
 }
 
